@@ -78,6 +78,7 @@ type c04Cfg struct {
 	StaticKeys      bool // public-key files: the kid of a token plays no role
 	SkipNonce       bool
 	Redis           bool
+	DecoyClaims     []string // further candidate claims that must NOT be read (carry distinct decoy values)
 	AllowedGroups   []string // --allowed-group: the authorisation decision must follow the TOKEN's groups, element boundaries included
 	ExtraIss        string // issuer string of the extra JWT issuer of this configuration ("" = the second rig IdP)
 	BearerOnly      bool   // configuration differs from "disc" only on the bearer path
@@ -128,6 +129,11 @@ func c04Configs(w *vfWorld, idp2 *vfIdP, thorough bool) []*c04Cfg {
 		mk("allow-unverified", func(c *c04Cfg) { c.AllowUnverified = true }, "--insecure-oidc-allow-unverified-email=true"),
 		mk("custom-claims", func(c *c04Cfg) { c.EmailClaim, c.GroupsClaim = "mail", "roles" }, "--oidc-email-claim=mail", "--oidc-groups-claim=roles"),
 		mk("user-id-claim", func(c *c04Cfg) { c.EmailClaim = "upn" }, "--user-id-claim=upn"),
+		// both options set: an explicitly configured --oidc-email-claim decides; the deprecated --user-id-claim only stands
+		// in while --oidc-email-claim is at its default (option docs; providers.go "Backwards Compatibility for Deprecated UserIDClaim")
+		mk("email-claim+user-id-claim", func(c *c04Cfg) { c.EmailClaim, c.DecoyClaims, c.BearerOnly = "mail", []string{"upn"}, !thorough }, "--oidc-email-claim=mail", "--user-id-claim=upn"),
+		mk("user-id-claim+email-claim-reversed", func(c *c04Cfg) { c.EmailClaim, c.DecoyClaims, c.BearerOnly = "upn", []string{"mail"}, true }, "--oidc-email-claim=upn", "--user-id-claim=mail"),
+		mk("email-claim-default+user-id-claim-default", func(c *c04Cfg) { c.DecoyClaims, c.BearerOnly = []string{"mail", "upn"}, true }, "--oidc-email-claim=email", "--user-id-claim=email"),
 		mk("no-profile", func(c *c04Cfg) { c.SkipProfile = true }, "--skip-claims-from-profile-url=true"),
 		mk("extra-issuer", func(c *c04Cfg) {
 			c.Verifiers = append(c.Verifiers, c04Verifier{Issuer: idp2.Issuer, ClientID: c04ExtraAudience, Extra: true})
@@ -168,7 +174,8 @@ var (
 	c04ExpVals   = []string{"+1h", "+5m", "-1h", "-90s", "missing", "string"}
 	c04EVVals    = []string{"absent", "true", "false", "str-false"}
 	c04ClaimVals = []string{"full", "no-email", "no-pu", "no-groups", "minimal", "unicode", "long", "groups-scalar", "groups-empty-list", "groups-empty-string", "pu-empty", "email-empty", "all-empty",
-		"groups-string-blanks", "groups-string-ctl", "groups-list-blanks", "groups-number", "groups-nested", "groups-object", "strings-with-blanks"}
+		"groups-string-blanks", "groups-string-ctl", "groups-list-blanks", "groups-number", "groups-nested", "groups-object", "strings-with-blanks",
+		"numbers-big", "numbers-noncanonical", "groups-number-big"}
 )
 
 // c04Baseline: a token that is valid under the configuration (for the primary issuer, or for the extra JWT issuer).
@@ -407,6 +414,9 @@ func c04Claims(s c04Spec, cfg *c04Cfg, idp2Issuer string, base map[string]interf
 	if cfg.EmailClaim != "email" {
 		c["email"] = "decoy-" + tag + "@decoy.test"
 	}
+	for _, d := range cfg.DecoyClaims {
+		c[d] = "decoy-" + d + "-" + tag + "@decoy.test"
+	}
 	if cfg.GroupsClaim != "groups" {
 		c["groups"] = []string{"decoy-group-" + tag}
 	}
@@ -450,6 +460,18 @@ func c04Claims(s c04Spec, cfg *c04Cfg, idp2Issuer string, base map[string]interf
 		c[cfg.GroupsClaim] = []interface{}{[]interface{}{"Admins", "b"}, map[string]interface{}{"k": 1}, "p q", 7, true}
 	case "groups-object":
 		c[cfg.GroupsClaim] = map[string]interface{}{"Admins": true, "n": 1}
+	// numeric claims: rendered as the number's text exactly as transmitted — integers beyond 2^53 must not be rounded,
+	// non-canonical spellings must not be re-spelled
+	case "numbers-big":
+		c[cfg.EmailClaim] = json.Number("9007199254740993") // 2^53+1
+		c[cfg.GroupsClaim] = []interface{}{json.Number("1152921504606846977"), json.Number("9223372036854775807"), json.Number("18446744073709551615"), json.Number("-9007199254740993"), "Admins"}
+		c["preferred_username"] = json.Number("1152921504606846977") // 2^60+1
+	case "numbers-noncanonical":
+		c[cfg.EmailClaim] = json.Number("1.0")
+		c[cfg.GroupsClaim] = []interface{}{json.Number("1e3"), json.Number("1.50"), json.Number("0.10"), json.Number("-0"), json.Number("1E+2"), json.Number("12345678901234567890.5")}
+		c["preferred_username"] = json.Number("1e3")
+	case "groups-number-big":
+		c[cfg.GroupsClaim] = json.Number("1152921504606846977")
 	}
 	return c
 }
@@ -504,7 +526,15 @@ type c04Token struct {
 }
 
 func c04Decode(raw string) c04Token {
-	t := c04Token{Raw: raw, Claims: vfJWTClaims(raw)}
+	t := c04Token{Raw: raw}
+	// numbers keep their text exactly as transmitted (json.Number): the reference renders a numeric claim verbatim
+	if parts := strings.Split(raw, "."); len(parts) >= 2 {
+		if b, err := base64.RawURLEncoding.DecodeString(parts[1]); err == nil {
+			d := json.NewDecoder(strings.NewReader(string(b)))
+			d.UseNumber()
+			_ = d.Decode(&t.Claims)
+		}
+	}
 	if b, err := base64.RawURLEncoding.DecodeString(strings.Split(raw, ".")[0]); err == nil {
 		_ = json.Unmarshal(b, &t.Header)
 	}
@@ -588,8 +618,12 @@ func c04AudOK(t c04Token, cfg *c04Cfg, v c04Verifier) c04Tri {
 }
 
 func c04ExpOK(t c04Token) c04Tri {
-	f, ok := t.Claims["exp"].(float64)
+	n, ok := t.Claims["exp"].(json.Number)
 	if !ok {
+		return c04Bad
+	}
+	f, err := n.Float64()
+	if err != nil {
 		return c04Bad
 	}
 	d := time.Until(time.Unix(int64(f), 0))
@@ -671,6 +705,13 @@ func c04Reference(t c04Token, cfg *c04Cfg, bearer bool) c04Ref {
 		if v.Extra && bad == 0 {
 			// the converter for foreign issuers decodes the standard claims strictly (groups must be a list of strings);
 			// whether a token with a scalar groups claim is usable there is not decided by the statement
+			for _, name := range []string{"email", "preferred_username"} {
+				if v, has := t.Claims[name]; has && v != nil {
+					if _, isString := v.(string); !isString {
+						either++
+					}
+				}
+			}
 			if g, has := t.Claims["groups"]; has {
 				if _, allStrings := c04StrList(g); !allStrings {
 					either++
@@ -709,6 +750,8 @@ func c04Render(v interface{}) string {
 	switch x := v.(type) {
 	case string:
 		return x
+	case json.Number:
+		return x.String() // the number's text exactly as in the token (no rounding through float64, no re-spelling)
 	case float64:
 		return strconv.FormatFloat(x, 'f', -1, 64)
 	case bool:
@@ -1512,9 +1555,9 @@ func (r *c04Runner) temporal(cfgs []*c04Cfg) {
 
 func TestVerif_C04(t *testing.T) {
 	run := vfNewRun(t, "C04", "exploration")
-	run.SetRule("token grid = signature (13 variants) x iss (11) x audience shape incl. custom audience claim (27) x exp (6) x email_verified (4) x claim set (20, incl. present-but-empty claims and groups as a lone string with blanks / tabs / newlines / commas, list elements with blanks, number, nested, object): " +
+	run.SetRule("token grid = signature (13 variants) x iss (11) x audience shape incl. custom audience claim (27) x exp (6) x email_verified (4) x claim set (20, incl. present-but-empty claims and groups as a lone string with blanks / tabs / newlines / commas, list elements with blanks, number, nested, object, integers beyond 2^53 and non-canonical number spellings): " +
 		"every single deviation from a valid token, (thorough) every pair of deviations, plus a seeded random sample of combinations; on the callback, refresh and bearer " +
-		"(4 Authorization variants, incl. extra JWT issuer) paths; per configuration kind (discovery / JWKS URL / key file / extra audiences / audience claims / allow-unverified / custom claims / user-id-claim / no profile / extra issuer with and without discovery document / allowed-group / skip-nonce, cookie and Redis store). " +
+		"(4 Authorization variants, incl. extra JWT issuer) paths; per configuration kind (discovery / JWKS URL / key file / extra audiences / audience claims / allow-unverified / custom claims / user-id-claim / both e-mail options set / no profile / extra issuer with and without discovery document / allowed-group / skip-nonce, cookie and Redis store). " +
 		"cell = (path, configuration, which clause of V is the ONLY failing one + its variant) or (path, configuration, valid, audience shape, claim set); multi-failure cases are trivial. " +
 		"Temporal pairs: a token living 3-5 s is presented while valid and the same raw token again 1.5 s after its exp (bearer, per verifier; and through ValidateSession of a stale cookie session without refresh token)")
 	run.Assume("RSA verification of the reference uses crypto/rsa of the standard library", "the fake provider signs with one RSA key (kid k1); the extra issuer publishes the same key, so only iss/aud separate the two verifiers",
